@@ -88,6 +88,7 @@ let run_file rtl f =
       | tk -> Some (parse_op tk)) (read_lines f) in
   let fuel = nat_of_int 40 in
   let w = ref world0 in
+  let legal = ref true in
   List.iter (fun o ->
       let before = List.length !w.w_trace in
       let w' = step fn_std rtl fuel !w o in
@@ -98,7 +99,13 @@ let run_file rtl f =
       let vs = List.sort compare (List.map (fun (p, pr) -> (int_of_nat p, int_of_z pr.pr_value, pr.pr_updater <> None)) w'.w_props) in
       Printf.printf "vals%s\n" (String.concat "" (List.map (fun (p, v, b) -> Printf.sprintf " %d:%d%s" p v (if b then "b" else "")) vs));
       (* lines starting with '#' are the model's own property checkers: not compared with the implementation *)
-      Printf.printf "#chk c02=%d links=%d%s\n" (if check_c02 fn_std w' then 1 else 0) (if check_links w' then 1 else 0)
+      (* pinv: the link invariant proved in coq/PropLinkOps.v, evaluated on this world as long as no operation so far was
+         answered with "not a legal program / not modelled" *)
+      (match w'.w_trace with EvDone r :: _ -> if not (okxb r) then legal := false | _ -> ());
+      let pb = pinv_b w' in
+      Printf.printf "#chk c02=%d links=%d pinv=%s%s\n" (if check_c02 fn_std w' then 1 else 0) (if check_links w' then 1 else 0)
+        (if not !legal then "skip" else if List.for_all (fun b -> b) pb then "1"
+         else "0 pinvbits=" ^ String.concat "" (List.map (fun b -> if b then "t" else "f") pb))
         (match o with
          | BevEvalAll e when (match w'.w_trace with EvDone None :: _ -> true | _ -> false)
                              (* observers that write or reset change inputs in the middle of a pass: outside the guarantee *)
